@@ -6,14 +6,16 @@ from .c01 import balance_violations
 ID = "C08"
 LEVEL = "exploration"
 RULE = ("network R-p1-J1-p2-J2-p3-T: leak site {J1, J2, T, J1+J2, J1+T} x area {1e-4, 5e-3} x Cd {0.75, 0.6, 1.0} x window "
-        "{(0,None),(0,2h),(1h,3h),(1h20,2h40) off-grid,(None,None) never started} x demand model {DD, PDD} x J1 elevation "
-        "{0, above the HGL (negative pressure)} x history {add, add+remove, add+remove+add} x hydraulic step {1h, 30min} x pipe orientation {as drawn, p2 reversed, p1+p3 reversed}; plus a leaking dead-end junction cut off from 2 h to 3 h by time controls on its only pipe; report "
+        "{(0,None),(0,2h),(1h,3h),(1h20,2h40) off-grid,(None,None) never started,(2h,None)} x demand model {DD, PDD} x J1 elevation "
+        "{0, above the HGL (negative pressure)} x history {add, add+remove, add+remove+add, run+reset+run (second run judged), run+remove_leak+reset+run} x hydraulic step {1h, 30min} x pipe orientation {as drawn, p2 reversed, p1+p3 reversed}; plus a leaking dead-end junction cut off from 2 h to 3 h by time controls on its only pipe; report "
         "'ALL'; fully crossed in quick except area x Cd (pairs {(1e-4,0.75),(5e-3,0.6),(5e-3,1.0)}), thorough crosses everything. "
         "oracle: formula inside the window at p>1e-4, ~0 at p<=0, exactly 0 outside, off-grid instants solved, node balance, "
         "remove_leak == never had a leak. non-trivial: some leak discharges > 1e-6 at some step and is off at another")
 
-WINDOWS = [(0, None), (0, 7200), (3600, 10800), (4800, 9600), (None, None)]
-HIST = ["add", "add-remove", "add-remove-add"]
+WINDOWS = [(0, None), (0, 7200), (3600, 10800), (4800, 9600), (None, None), (7200, None)]
+# run-reset-run: simulate, reset_initial_values, simulate again (the second run is judged); run-remove: simulate with the
+# leak, then remove_leak + reset (judged against the never-leaked model)
+HIST = ["add", "add-remove", "add-remove-add", "run-reset-run", "run-remove"]
 
 
 def base(dm, high, hyd):
@@ -33,6 +35,8 @@ def cases(tier):
         if tier == "quick" and hyd == 1800 and (hist != "add" or high):
             continue
         if tier == "quick" and rev and (hist != "add" or hyd != 3600):
+            continue
+        if hist in ("run-reset-run", "run-remove") and (hyd != 3600 or rev or (tier == "quick" and (area, cd) != ac[0])):
             continue
         s = base(dm, high, hyd)
         for ln in rev:      # pipe orientation: a junction then has 0 or 2 links that start at it
@@ -75,6 +79,8 @@ def apply_history(wn, s):
         elif s["hist"] == "add-remove":
             n.add_leak(wn, lk["area"], lk["cd"], lk["start"], lk["end"])
             n.remove_leak(wn)
+        elif s["hist"] in ("run-reset-run", "run-remove"):
+            n.add_leak(wn, lk["area"], lk["cd"], lk["start"], lk["end"])
         else:
             n.add_leak(wn, 2 * lk["area"], 0.5, 1800, 3000)
             n.remove_leak(wn)
@@ -86,7 +92,15 @@ def run_case(s):
     viol, counts = [], {}
     wn = build(s)
     apply_history(wn, s)
-    removed = s["hist"] == "add-remove"
+    if s["hist"] in ("run-reset-run", "run-remove"):
+        r = simulate(s, wn=wn)
+        if r.error:
+            return {"viol": viol, "nontrivial": False, "outcome": "not-converged", "counts": {"not_converged": 1}}
+        if s["hist"] == "run-remove":
+            for lk in s["leaks"]:
+                wn.get_node(lk["node"]).remove_leak(wn)
+        wn.reset_initial_values()
+    removed = s["hist"] in ("add-remove", "run-remove")
     if removed:
         names = [c for c in wn.control_name_list]
         if names:
